@@ -11,6 +11,7 @@
   original's on everything that survives.
 -/
 import CC.Proofs.Contract
+import CC.Properties.C01
 set_option linter.unusedSectionVars false
 
 namespace CC
@@ -175,5 +176,34 @@ theorem C16_zero_current_spec (N N' : Net L K) (keep : List (ElemKey K))
     by_cases hv : b.e.isCS = true
     · simp [hk, hk', hv, zeroInCurrent]
     · simp [hk, hk', hv]
+
+end CC
+
+/-! ### the same statements about the numbers the code reports -/
+
+namespace CC
+variable {L K : Type} [DecidableEq L] [LabelOrd L] [Field K] [DecidableEq K]
+
+/-- **C16 (reported values, short contraction).**  Whatever vectors satisfy the matrix
+equations of the original and of the contracted network (the latter well-posed), the
+solver reports for the contracted network exactly what it reported for the original, on
+every surviving node and branch. -/
+theorem C16_reported_short (N N' : Net L K) (keep : List (ElemKey K))
+    (hr : removeShort N keep = .ok N') (wf : N.WF) (wf' : N'.WF) (hw' : WellPosed N')
+    (x x' : List K) (hx : x.length = N.nodes.length + N.vsIds.length)
+    (hx' : x'.length = N'.nodes.length + N'.vsIds.length)
+    (h : matVec N.mnaA x = N.mnaB) (h' : matVec N'.mnaA x' = N'.mnaB) :
+    (N'.reportOf x').AgreeOn N' (N.reportOf x) :=
+  C01_reported_is_the_solution N' wf' hw' x' hx' h' _
+    (C16_short N N' keep _ hr (C01_sound N x wf hx h).2.2).1
+
+/-- **C16 (reported values, open removal).** -/
+theorem C16_reported_open (N N' : Net L K) (hr : removeOpen N = .ok N') (wf : N.WF) (wf' : N'.WF)
+    (hw' : WellPosed N') (x x' : List K) (hx : x.length = N.nodes.length + N.vsIds.length)
+    (hx' : x'.length = N'.nodes.length + N'.vsIds.length)
+    (h : matVec N.mnaA x = N.mnaB) (h' : matVec N'.mnaA x' = N'.mnaB) :
+    (N'.reportOf x').AgreeOn N' (N.reportOf x) :=
+  C01_reported_is_the_solution N' wf' hw' x' hx' h' _
+    (C16_open N N' _ hr (C01_sound N x wf hx h).2.2).1
 
 end CC
